@@ -4,6 +4,11 @@
 # evaluated on every function, so a missing unlock or an access moved outside the lock breaks a proof obligation.
 import json, subprocess, os, re, sys
 
+# Reviewed exemption (DESIGN 5.13): qlisttbl_removeobj frees the node's name/data after unlock(); the node was
+# unlinked while the lock was held, so no other thread can reach it any more.
+PRIVATE_AFTER_UNLINK = {('qlisttbl_removeobj', 'this')}
+ALLOCATORS = {'malloc', 'calloc', 'realloc', 'strdup', 'qmemdup', 'qstrdupf'}
+
 FILES = ['containers/qtreetbl.c', 'containers/qhashtbl.c', 'containers/qlisttbl.c', 'containers/qlist.c',
          'containers/qvector.c', 'containers/qqueue.c', 'containers/qstack.c', 'containers/qgrow.c', 'extensions/qlog.c']
 
@@ -54,6 +59,7 @@ class Fn:
         self.name, self.params, self.body, self.static, self.file = name, params, body, static, file
         self.term = None
         self.calls = set()
+        self.fresh = set()
 
 
 class Translator:
@@ -62,6 +68,7 @@ class Translator:
         self.methods = {}      # (struct type name, member) -> function name
         self.assigned_outside_ctor = {}   # struct type -> set(member)
         self.struct_of_ctor = {}
+        self.statics = {}      # (file, name) -> unique name of a static function
 
     # ---- pass 1: collect functions, constructor method tables
     def collect(self, tu, file):
@@ -75,9 +82,45 @@ class Translator:
             if 'includedFrom' in loc or ('file' in loc and not loc['file'].endswith('.c')):
                 continue
             params = [(c.get('name'), c.get('type', {}).get('qualType', '')) for c in d['inner'] if c.get('kind') == 'ParmVarDecl']
-            f = Fn(d['name'], params, body[0], d.get('storageClass') == 'static', file)
-            self.fns[d['name']] = f
+            static = d.get('storageClass') == 'static'
+            uname = (os.path.basename(file).replace('.c', '') + '__' + d['name']) if static else d['name']
+            f = Fn(uname, params, body[0], static, file)
+            self.fns[uname] = f
+            if static:
+                self.statics[(file, d['name'])] = uname
             self.scan_assignments(body[0], f)
+            f.fresh = self.fresh_locals(body[0])
+
+    def fresh_locals(self, body):
+        """local pointer variables every assignment of which is the result of an allocation call (or NULL)"""
+        cand, bad = set(), set()
+        def rhs_fresh(e):
+            e = strip(e)
+            if e.get('kind') == 'CallExpr':
+                c, _ = callee_name(e)
+                return c in ALLOCATORS or c in self.returns_fresh
+            if e.get('kind') in ('IntegerLiteral', 'GNUNullExpr', 'CXXNullPtrLiteralExpr'):
+                return True
+            return False
+        def walk(n):
+            k = n.get('kind')
+            if k == 'VarDecl' and '*' in n.get('type', {}).get('qualType', ''):
+                init = [c for c in n.get('inner', []) if c.get('kind')]
+                if init:
+                    (cand if rhs_fresh(init[-1]) else bad).add(n.get('name'))
+                else:
+                    cand.add(n.get('name'))
+            if k == 'BinaryOperator' and n.get('opcode') == '=':
+                lhs = strip(n['inner'][0])
+                if lhs.get('kind') == 'DeclRefExpr':
+                    nm = lhs['referencedDecl'].get('name')
+                    (cand if rhs_fresh(n['inner'][1]) else bad).add(nm)
+            for c in n.get('inner', []):
+                walk(c)
+        walk(body)
+        return cand - bad
+
+    returns_fresh = {'newobj', 'new_obj'}     # static constructors of node objects: every return is a block they allocated
 
     def scan_assignments(self, n, f):
         if n.get('kind') == 'BinaryOperator' and n.get('opcode') == '=':
@@ -111,6 +154,8 @@ class Translator:
             fnode = strip(n['inner'][0])
             if fnode.get('kind') == 'MemberExpr':
                 out += self.expr(fnode['inner'][0], fn)
+            if target is not None and (fn.file, target) in self.statics:
+                target = self.statics[(fn.file, target)]
             nm = target or cname or '?'
             if nm.endswith('_lock') or nm == '->lock':
                 out.append(('Lock',))
@@ -131,7 +176,12 @@ class Translator:
             if base.get('kind') == 'DeclRefExpr' and fn.params and base['referencedDecl'].get('name') == fn.params[0][0]:
                 out.append(('Acc', n['name'], self.tyname(base.get('type', {}).get('qualType', ''))))
             elif n.get('isArrow'):
-                out.append(('Deref', n['name']))
+                bname = base['referencedDecl'].get('name') if base.get('kind') == 'DeclRefExpr' else None
+                if bname is not None and (bname in fn.fresh or (fn.name, bname) in PRIVATE_AFTER_UNLINK
+                                          or (not fn.static and bname in [p[0] for p in fn.params[1:]])):
+                    pass      # a block this call allocated itself, a node it has already unlinked, or a caller-owned argument
+                else:
+                    out.append(('Deref', n['name']))
             return out
         if k == 'ConditionalOperator':
             c, a, b = n['inner']
@@ -364,6 +414,12 @@ def generate(repo):
     out.append("")
     out.append("(* every non-static function of the lockable containers except the lock()/unlock() primitives themselves *)")
     out.append("Definition public_api : list (string * stmt) := [%s]." % '; '.join('("%s", f_%s)' % (n, n) for n in pub))
+    skip = re.compile(r'^(q(treetbl|hashtbl|listtbl|list|vector|queue|stack|grow|log)|.*_(free|size|datasize|debug|check|getnext|set_compare|freemulti|setsize|byte_cmp)|node_check_.*|qlog_.*)$')
+    c13 = [n for n in pub if not skip.match(n)]
+    out.append("(* the operations property C13 speaks about: put/add/push, get, remove/pop, clear, flattening, reverse, sort ... of the")
+    out.append("   lockable containers; constructors and free() (exclusive access by contract), size()/debug()/check() (plain reads outside")
+    out.append("   the property's operation mix), getnext() (the caller holds the lock during a walk) are not in the list *)")
+    out.append("Definition c13_api : list (string * stmt) := [%s]." % '; '.join('("%s", f_%s)' % (n, n) for n in c13))
     out.append("Definition lock_users : list string := [%s]." % '; '.join('"%s"' % n for n in sorted(locky) if n in pub))
     out.append("Definition mutable_fields : list (string * string) := [%s]." % '; '.join('("%s", "%s")' % m for m in sorted(mutable)))
     return {'LockAst.v': '\n'.join(out) + '\n'}
